@@ -1465,7 +1465,7 @@ VARIANTS = [
     ('mtu ignores frame overhead', 'bumble/rfcomm.py', "        max_overhead = 4 + 1  # header with 2-byte length + fcs", "        max_overhead = 3  # header + fcs", 'fire', 'C20.bounds'),
     ('p_f always set', 'bumble/rfcomm.py', "                    p_f=1 if rx_credits_needed > 0 else 0,", "                    p_f=1,", 'fire', 'C20.pf-agreement'),
     ('grant not recorded', 'bumble/rfcomm.py', "                self.rx_credits += rx_credits_needed\n", "", 'fire', 'C20.rx-ledger'),
-    ('grant is the maximum', 'bumble/rfcomm.py', "            return self.rx_max_credits - self.rx_credits\n", "            return self.rx_max_credits\n", 'fire', 'C20.rx-ledger'),
+    ('grant is the maximum', 'bumble/rfcomm.py', '            return self.rx_max_credits - occupied\n', '            return self.rx_max_credits\n', 'fire', 'C20.rx-ledger'),
     ('no pump after receive', 'bumble/rfcomm.py', "        # Check if there's anything to send (including credits)\n        self.process_tx()\n", "", 'fire', 'C20.progress'),
     ('responder only acknowledges DISC', 'bumble/rfcomm.py', "        self.multiplexer.on_dlc_disconnection(self)\n        self.emit(self.EVENT_CLOSE)\n\n    def on_uih_frame", "        self.emit(self.EVENT_CLOSE)\n\n    def on_uih_frame", 'fire', 'C20.teardown'),
     ('acceptor swaps tx and rx frame size', 'bumble/rfcomm.py', "                            tx_max_frame_size=pn.max_frame_size,\n                            tx_initial_credits=pn.initial_credits,\n                            rx_max_frame_size=dlc_params[0],", "                            tx_max_frame_size=dlc_params[0],\n                            tx_initial_credits=pn.initial_credits,\n                            rx_max_frame_size=pn.max_frame_size,", 'fire', 'C20.negotiation'),
@@ -1483,7 +1483,7 @@ VARIANTS = [
     ('roam factory describes call', 'bumble/hfp.py', "            indicator=AgIndicator.ROAM, supported_values={0, 1}, current_status=0", "            indicator=AgIndicator.CALL, supported_values={0, 1}, current_status=0", 'fire', 'C20.indicator-table'),
     ('enabled flag ignored', 'bumble/hfp.py', "                    self.hf_indicators[indicator].enabled = enabled", "                    self.hf_indicators[indicator].enabled = True", 'fire', 'C20.negotiated-state'),
     ('benign: local rename in process_tx', 'bumble/rfcomm.py', "            # Update the tx credits\n", "            # Account for the tx credit\n", 'silent', ''),
-    ('benign: equivalent threshold test', 'bumble/rfcomm.py', "        if self.rx_credits <= self.rx_credits_threshold:\n            return self.rx_max_credits - self.rx_credits\n\n        return 0", "        if self.rx_credits > self.rx_credits_threshold:\n            return 0\n\n        return self.rx_max_credits - self.rx_credits", 'silent', ''),
+    ('benign: equivalent threshold test', 'bumble/rfcomm.py', '        if occupied <= self.rx_credits_threshold:\n            return self.rx_max_credits - occupied\n\n        return 0', '        if occupied > self.rx_credits_threshold:\n            return 0\n\n        return self.rx_max_credits - occupied', 'silent', ''),
     ('contiguity test off by one', 'bumble/hfp.py', "        if len(self.supported_values) == (max_value - min_value + 1):", "        if len(self.supported_values) == (max_value - min_value):", 'fire', 'C20.cind-ranges'),
     ('benign: contiguity test rearranged', 'bumble/hfp.py', "        if len(self.supported_values) == (max_value - min_value + 1):", "        if 1 + max_value - min_value == len(self.supported_values):", 'silent', ''),
     ('HF expands ranges exclusively', 'bumble/hfp.py', "range(value_min, value_max + 1)", "range(value_min, value_max)", 'fire', 'C20.cind-ranges'),
